@@ -10,6 +10,9 @@ CONSTANTS
   Dev_IsAfterStrict = FALSE
   Dev_NoHasHead = FALSE
   Dev_NoParentAclCheck = FALSE
+  Dev_StaleScratch = FALSE
+  Dev_MemoWriter = FALSE
+  Dev_RollbackOnlyHeads = FALSE
 INVARIANT Emit
 VIEW GView
 CHECK_DEADLOCK FALSE
